@@ -343,6 +343,14 @@ def check_C02(tier, seed, res, replay=None):
         v = vlib.tlc_validate("TraceTA.tla", [ef])
         res.add_validation(v)
         res.report_fails(v["fails"], os.path.join(vlib.OUT, "viol"))
+    # step-level binding of the Layer-2 model Product (hook: Start / Pop in both intersections)
+    pool = [c for c in cases if c["op"] == "isect" and c["A"]["rules"] and c["B"]["rules"]]
+    rng.shuffle(pool)
+    nb = 6000 if tier == "thorough" else 1500
+    for bu in (False, True):
+        sample = [{"id": c["id"], "op": "isecttrace", "bu": bu, "A": c["A"], "B": c["B"]} for c in pool if c.get("bu", False) == bu][:nb]
+        bind_model(res, rd, "bind" + ("bu" if bu else "td"), "Product-" + ("bu" if bu else "td"), sample, "TraceProduct.tla",
+                   "TraceProduct_%s.cfg" % ("bu" if bu else "td"))
     # Layer 2: both intersections as work-list machines (top-down from final pairs, bottom-up from leaf pairs with the
     # enter-check-erase treatment of the parent pair), every pair of automata of the bound, every pop order
     q = "" if tier == "thorough" else "_q"
@@ -390,6 +398,8 @@ def maybe_split(d, rng):
     """ask-twice mode for ops that support it in the driver (trim, reduce, compl, witness; sim sets its own)"""
     if d["op"] in ("trim", "reduce", "compl", "witness") and len(d["A"]["rules"]) >= 2 and rng.random() < 0.2:
         d["split"] = rng.randint(1, len(d["A"]["rules"]) - 1)
+    if d["op"] == "reduce" and rng.random() < 0.3:
+        d["viaparam"] = True
     if d["op"] == "trim" and rng.random() < 0.15:
         # the optional translation map handed to the trimmers already holds entries (a map reused over several calls)
         st = sorted(gen.states_of(d["A"]))
